@@ -115,6 +115,7 @@ Fillers == <<
    Look(La), NLook(La), LookB(La), Rep(Grp(201, Opt(La)), 2, 2, TRUE), Keep, Cat(<<La, Keep, Lb>>),
    Alt(<<Grp(201, La), Grp(202, Lb)>>), Rep(Cat(<<La, Lb>>), 0, 1, TRUE),
    Rep(Atom(La), 0, 0, TRUE), Rep(Cat(<<La, Look(Lb)>>), 0, 0, TRUE), Rep(Lb, 0, 0, TRUE),
+   Cat(<<Lit("U"), Lit("Q")>>), Alt(<<Lit("K"), Lit("T"), La>>),          \* characters whose code points exercise the hex / unicode escapes (5f, 1f600, e01, 3042)
    Rep(La, 1, 2, FALSE), Rep(Cat(<<La, Look(AnyC)>>), 1, 2, FALSE), Rep(Alt(<<La, Lb>>), 0, 2, FALSE), Opt(Plus(La)), Opt(Star(Cat(<<La, Lb>>)))
 >>
 
